@@ -9,6 +9,7 @@ from fractions import Fraction
 
 from common import zlit, qlit, lst, natlit, coq_bad_indices, parallel_coq_bad, CoqError
 import mlmcdrive as D
+import c05_vec as V
 
 PROP = "C05"
 PROPERTY_FILE = "Properties/C05.v"
@@ -22,23 +23,36 @@ RULE = ("histories of the adaptive loop generated from the seed: initial level 0
         "on ONE Engine instance (a third of them going to higher levels than the first pricing); plus runs with 1-2 control "
         "variates, one held short (implementation oracle). non-trivial = at least two passes or one added level (adaptive), a "
         "further pricing on a used engine, at least one level above 0 with N >= 1 (fixed)")
-MODELLED = ["Engine.price / compute_level_l (single process) / price_with_constant_mc_paths_and_level, MLMCStatistics, "
+MODELLED = ["wave 5, Model/MlmcVec.v (generic engine over the stored row type, linked to Model/Mlmc.v by the simulation theorem "
+            "C05_vec_component_is_scalar_run): MLMCPath.process/process_l0/discount for ALL payoff components, ControlVariates.process(_mlmc) "
+            "rows, MCStatistics.add/extend of the payoff, control and with_cv arrays, compute_coefficients_mlmc after every pass (with_cv rows = "
+            "Y - b (X - price) per component and side; b = ANY rule in the theorems, McStats.b_star1/b_star2 of C07 in the replay), price() and "
+            "ml/vl/cl/mean/var from the adjusted rows; tied by vm_compute replay: ~70 vector histories + 80 fixed-level runs (every component of "
+            "every row exact), ~35 control-variate runs (raw and control rows exact, adjusted rows 1e-6, price and statistics 1e-5; kurtosis of "
+            "the adjusted rows by the Fraction oracle only)",
+            "multi-process branch of compute_level_l (map_async callback: statistics.add(current + it, ...)): modelled as the same engine whose "
+            "n-th stored row of a level is the row of draw sigma(level, n) for an ARBITRARY assignment sigma; tied by 3 small REAL 2-worker pool "
+            "runs whose observed sigma (read off the uniquely tagged rows) is replayed row by row under vm_compute, plus the 3-4 large runs "
+            "(up to 12 500 paths in one pass) checked as multisets by the implementation oracle",
+            "Engine.price / compute_level_l (single process) / price_with_constant_mc_paths_and_level, MLMCStatistics, "
             "MLMCResults, Statistic.add/extend, MLMCPath.process(_l0)/discount (payoff component 0), the per-engine list of path "
             "managers across pricings: hand model Model/Mlmc.v + Model/McStats.v, tied by vm_compute correspondence on every history",
             "numpy: np.pad zero padding, np.empty (arbitrary content), np.mean, scipy.stats.moment (central moments)",
-            "payoff components j >= 1 of a vector payoff: not in the Coq model (price() and mlmc_results only read component 0); "
-            "their stored rows are checked by the implementation oracle",
-            "multiprocess callback path (nb_of_processes = 2, real pool): NOT in the Coq model (single process); implementation oracle on 3-4 runs "
-            "(rows == uniquely tagged samples as a multiset, one run with 12 500 paths on a level in one pass); spot statistics, logging: not modelled; the log2 regression of the rates "
-            "only feeds the arguments of the criteria callbacks (arbitrary oracles in the model) and is exercised in 15% of the histories",
-            "control-variate variant (with_cv rows = Y - b (X - price), ml/vl/... from the adjusted rows): implementation oracle only "
-            "(exact Fraction re-computation; skipped levels are counted and the check breaks when more than 25% are skipped)",
+            "spot statistics, logging: not modelled; the log2 regression of the rates only feeds the arguments of the criteria callbacks "
+            "(arbitrary oracles in the model) and is exercised in 15% of the histories",
+            "control variates: np.linalg.lstsq on the correlation scale is modelled by the closed-form solution for 1 and 2 controls (C07's "
+            "b_star1/b_star2); 3+ controls, singular or ill-conditioned Sigma_X (|det| < 1e-3 of the diagonal product) are not replayed (counted; the "
+            "check breaks when fewer than half of the runs are replayed); vector payoffs WITH controls (per-component prices, product.py:296) are in "
+            "the model and the theorems but are not driven by the correspondence (controls of the harness are scalar)",
+            "the pool's chunking of range(extra_mc_paths) and the completion order inside map_async are below the model: map_async hands the "
+            "callback ONE list ordered by iteration index, so they only show in sigma",
             "where N_l = 0 numpy reports nan; the model's totalised value 0 is never compared there, the oracle asserts nan",
             "mlmc kurtosis: the code's raw-moment formula cancels catastrophically for |dp| >> std(dp) (3.32 reported vs 1.63 exact on "
             "the same rows at |dp| ~ 7500); compared with a tolerance scaled by E[dp^4]"]
 ASSUMPTIONS = ["compute_mc_paths answers an integer array with one entry per level (numpy raises otherwise; the model reads a missing entry as 0)",
                "sample counts stay below 2^40 so that the float test dNl > 0.01*Nl equals 100*dNl > Nl",
-               "nb_of_processes = 1 (the multiprocess path is C08's)",
+               "multi-process theorem: the permutation clause assumes every draw of a level is handed to exactly one iteration index (sigma l permutes "
+               "0..N_l-1); the replayed pool runs and the multiset oracle check that on the real pool",
                "next_level appends the path manager of each new level in increasing level order (tied by the sequence correspondence)"]
 THEOREM_NOTES = {
     "C05_rows_are_samples": "invariant of the loop, all oracles; the model follows the repaired tree (d6e63ca: Nl appended as 0)",
@@ -53,18 +67,34 @@ THEOREM_NOTES = {
     "C05_fixed_level_variant": "guard initial_level <= maximum_level (otherwise MLMCStatistics.extend raises IndexError: model returns None)",
     "vector payoffs": "F-C05-3 repaired (fix-mc3 440d935: fine/coarse stacked along the last axis); theorems are about payoff component 0, "
                       "which is all price() and mlmc_results read",
-    "control variates": "no Coq theorem for the with_cv rows of the multilevel engine; covered by the implementation oracle and by C07's model of helper_compute_coefficients",
+    "C05_vec_rows_are_samples": "generic engine (any stored row type): invariant proved once (Proofs/C05_Vec.v gloop_rows_are_samples), here instantiated "
+                                "with rows = (all payoff components, all control rows); with_cv = derive of exactly the simulated rows",
+    "C05_cv_rows_textbook": "for every regression rule bst; entries are Model/McStats.v cv_adj (C07) and the means are C07's cv_mean_full over exactly the "
+                            "N_l simulated rows; that the level-0 coarse side stays 0 needs b = 0 there (true for the code's degenerate test, checked by the replay, not a theorem)",
+    "C05_vec_component_is_scalar_run": "simulation: projecting the vector engine on component j gives literally Mlmc.price_run on payoff pay_j, so the six "
+                                       "component-0 theorems hold for every j < d (C05_vec_component_price is the instance for the estimator)",
+    "C05_mp_rows_permutation": "for ALL assignments sigma; rows in iteration order are the rows of draws sigma l 0..N-1 (no hypothesis); the permutation "
+                               "conclusion has the hypothesis that sigma l permutes 0..N_l-1 (non-vacuous: Example C05_mp_nonvacuous). PARTIAL with respect to "
+                               "objective (b): a theorem about the callback writing an arbitrarily chunked / ordered list of (it, path) pairs with set_nth "
+                               "(Model/MlmcVec.v merge) is NOT proved; the code's map_async delivers one ordered list",
+    "C05_results_permutation_invariant": "price contribution, ml, vl, mean, var, kurtosis, cl of a level are invariant under any permutation of its rows",
     "mc_stddev": "MLMCStatistics.mc_stddev is sum_l sigma_l/sqrt(N_l) in the code (not sqrt(sum sigma_l^2/N_l)); outside the property text, the oracle follows the code",
 }
-LEVEL_TEXT = ("Proof: 6 Coq theorems (closed under the global context) about an executable state-machine model of the multilevel "
+LEVEL_TEXT = ("Proof: 13 Coq theorems (closed under the global context). Six about an executable state-machine model of the multilevel "
               "engine, for all sample/cost/allocation/convergence oracles, all initial levels, sample sizes, maximum levels and "
               "fuels: at every return each level holds exactly its N_l simulated samples in order (no placeholder, none dropped, "
               "duplicated or overwritten; N_l = number of simulated paths), price() is the sum of the per-level means of fine-coarse "
               "with coarse = 0 at level 0, ml/vl/mean/var/kurtosis are the textbook functions of those rows where N_l > 0, sum_cost and "
               "N_l are the sums over the passes, a re-used engine gives every pricing its own samples through its own path managers, "
               "and the same for the fixed-level variant. The model is tied to /repo by replaying ~300 histories and ~45 multi-pricing "
-              "sequences of the real Engine.price under vm_compute (rows exact, statistics to 1e-9). Partial: payoff components >= 1 and "
-              "the control-variate variant by implementation oracle only.")
+              "sequences of the real Engine.price under vm_compute (rows exact, statistics to 1e-9). Seven (wave 5) about a generic engine "
+              "storing all payoff components and all control rows: the same invariant for every component and control; the with_cv rows are "
+              "Y - b (X - price) of exactly the simulated rows for every regression rule and their means are the textbook control-variate "
+              "estimators; every payoff component is literally a run of the scalar model (simulation theorem), so the six theorems hold per "
+              "component; the fixed-level variant; for the multi-process branch the rows are those of the draws the pool assigned (any "
+              "assignment) and a permutation of the simulated samples when each draw is assigned once, and every reported statistic is "
+              "permutation-invariant. Tied by ~70 vector, 80 fixed, ~35 control-variate replays and 3 real 2-worker runs. Partial: price() "
+              "reads component 0 only (F-C05-5); controls with vector payoffs and 3+ controls not driven; chunked-callback merge not proved.")
 LEVEL_NOTE = ("Trusted: Coq kernel + vm_compute; the hand-written model Model/Mlmc.v (tied by correspondence, not by translation); "
               "numpy pad/empty/mean and scipy.stats.moment semantics; nb_of_processes = 1.")
 TECHNIQUE = "Coq proof (loop invariant by induction on fuel, list lemmas, Q field identities) + vm_compute correspondence with a scripted coupling process"
@@ -83,6 +113,7 @@ def correspond(res):
     rng = random.Random(res.seed)
     n_hist = 260 if res.tier == "quick" else 1800
     cases = []
+    vcases = []
     for i in range(n_hist):
         mode = MODES[i % len(MODES)]
         spec = D.gen_spec(rng, mode)
@@ -109,6 +140,9 @@ def correspond(res):
         _violations(res, spec, obs, D.check_c05(spec, obs))
         tag = 1 if obs["fallthrough"] else 0
         cases.append(f"(run_tab 0 {D.coq_inputs(spec, obs)}, {zlit(tag)}, {D.coq_expected_rows(obs)}, {D.coq_expected_results(obs)})")
+        if ((spec["dim"] > 1 and i % 3 != 2) or i % 8 == 0) and len(vcases) < 300:        # Model/MlmcVec.v: EVERY payoff component of every stored row
+            vcases.append(V.vector_case(spec, obs))
+            res.bump("vector_model_replays_by_payoff_dim", spec["dim"])
 
     chk = ("fun c => match c with (o, tag, er, ex) => Z.eqb (out_tag o) tag && corr_rows (out_levels o) er && "
            "corr_results tol (out_levels o) ex end")
@@ -122,11 +156,25 @@ def correspond(res):
     else:
         res.case_ok += nshards
 
+    _coq_group(res, "vector", V.VEC_TY, V.VEC_CHK, vcases, 8 if res.tier == "quick" else 40,
+               "vector-payoff model (Model/MlmcVec.v) and implementation differ on {n} histories (all payoff components compared)")
     _fixed_variant(res, rng)
     _engine_reuse(res, rng)
     _real_coupling(res)
     _multiprocess(res, rng)
     _control_variates(res, rng)
+
+
+def _coq_group(res, name, ty, chk, cases, shard, msg):
+    if not cases:
+        res.broke(f"correspondence {name}", "the group has no case: nothing would be compared")
+        return
+    bad, nshards = parallel_coq_bad(PROP, name, V.HEADER, ty, chk, cases, shard=shard, timeout=900, jobs=12)
+    res.case_lemmas += nshards
+    if bad:
+        res.broke(f"correspondence {name}", msg.format(n=len(bad)) + f", first: case {bad[0]}: {cases[bad[0]][:1500]}")
+    else:
+        res.case_ok += nshards
 
 
 def _engine_reuse(res, rng):
@@ -291,10 +339,31 @@ def _multiprocess(res, rng):
         res.bump("multiprocess_max_paths_in_one_pass", max(max(r) for r in spec["atab"]))
         for what, payload in _mp_run(spec):
             res.violation(what, payload)
+    # small REAL 2-worker runs replayed by the Coq model of the merge (Model/MlmcVec.v mp_run_tab): the assignment sigma of draws to
+    # iteration indices is read off the stored rows (unique tags); the model must reproduce every row in iteration order
+    small = [{"L0": 1, "Lmax": 2, "N0": 12, "atab": [[30, 14], [30, 20], [31, 20, 9], [31, 20, 9]], "vtab": [False, True]},
+             {"L0": 0, "Lmax": 1, "N0": 25, "atab": [[40], [40, 17], [40, 17]], "vtab": [False, True]},
+             {"L0": 2, "Lmax": 2, "N0": 16, "atab": [[16, 33, 20], [16, 33, 21]], "vtab": [True]}]
+    mpcases = []
+    for k, run in enumerate(small if res.tier == "quick" else small + [dict(r, N0=r["N0"] + 7) for r in small]):
+        spec = dict(run, kind="multiprocess", salt=rng.randrange(17), ctab=[1.0] * 8, df=rng.choice([1.0, 0.5]), notional=rng.choice([1.0, 2.0]),
+                    dim=1, big=True, epoch=0, nb_of_processes=2)
+        ob = V.mp_observe(spec)
+        res.count(("mp-model", k, json.dumps(spec, sort_keys=True)), nontrivial=True, kind="multi-process (2 workers), replayed by the Coq model")
+        perm = all(sorted(sg) == list(range(n)) for sg, n in zip(ob["sigma"], ob["drawn"])) and ob["Nl"] == ob["drawn"][:len(ob["Nl"])]
+        res.bump("multiprocess_sigma", "identity" if all(sg == list(range(len(sg))) for sg in ob["sigma"]) else "a non-trivial permutation")
+        if not perm:
+            res.violation("multi-process run: the stored rows are not the simulated samples, each exactly once",
+                          dict(spec, Nl=ob["Nl"], paths_simulated=ob["drawn"]))
+            continue
+        mpcases.append(V.mp_case(spec, ob))
+    if mpcases:
+        _coq_group(res, "mp", V.MP_TY, V.MP_CHK, mpcases, 2, "multi-process merge model (Model/MlmcVec.v) and implementation differ on {n} real 2-worker runs")
 
 
 def _fixed_variant(res, rng):
     cases = []
+    vcases = []
     box = [(L0, Lmax, N) for L0 in range(0, 4) for Lmax in range(0, 5) for N in (1, 2, 3, 5)]
     if res.tier == "thorough":
         box += [(L0, Lmax, N) for L0 in range(0, 4) for Lmax in range(0, 7) for N in (4, 7, 16, 33)]
@@ -311,6 +380,7 @@ def _fixed_variant(res, rng):
             if L0 <= Lmax:
                 res.broke("correspondence driver", f"fixed-level variant raised {obs['raised']} on {spec}")
             cases.append(f"(fixed_run {args}, None)")
+            vcases.append(V.vfixed_case(spec, obs, L0, Lmax, N))
             continue
         res.bump("fixed_outcome", "returned")
         _violations(res, spec, obs, D.check_c05(spec, obs))
@@ -318,6 +388,7 @@ def _fixed_variant(res, rng):
             res.violation("fixed-level variant: N_l is not the configured sample size on every level 0..maximum_level",
                           D.replay_payload(spec, obs))
         cases.append(f"(fixed_run {args}, Some ({D.coq_expected_rows(obs)}, {D.coq_expected_results(obs)}))")
+        vcases.append(V.vfixed_case(spec, obs, L0, Lmax, N))
     chk = ("fun c => match c with (Some vs, Some (er, ex)) => corr_rows vs er && corr_results tol vs ex | (None, None) => true | _ => false end")
     ty = "option (list lev) * option ((list Z * list Z * list (list row)) * (Q * Q * list (list Q)))"
     if not cases:
@@ -328,6 +399,8 @@ def _fixed_variant(res, rng):
         res.broke("correspondence fixed", f"model and implementation differ on {len(bad)} fixed-level runs, first: {cases[bad[0]][:1500]}")
     else:
         res.case_ok += nshards
+    _coq_group(res, "vfixed", V.VFIX_TY, V.VFIX_CHK, vcases, 30,
+               "vector-payoff model (Model/MlmcVec.v) and implementation differ on {n} fixed-level runs")
 
 
 # ------------------------------------------------------------------ control variates (implementation oracle)
@@ -379,6 +452,7 @@ def _control_variates(res, rng):
     n_hist = 40 if res.tier == "quick" else 400
     funs = [lambda x: x * x / 8.0, lambda x: max(x - 6.0, 0.0)]
     n_levels = n_checked = n_skip_ill = n_skip_count = 0
+    cvcases = []
     for i in range(n_hist):
         spec = D.gen_spec(rng, "small")
         spec["dim"] = 1
@@ -455,9 +529,18 @@ def _control_variates(res, rng):
                     if not (got == got) or abs(Fraction(got) - val) > Fraction(1, 10 ** 5) * max(scale, abs(val)):
                         res.violation(f"with control variates mlmc_results.{name} is not the stated function of the adjusted samples",
                                       D.replay_payload(spec, obs, level=l, reported=got, from_adjusted_samples=float(val)))
+        if not skip and len(cvcases) < 120:        # Model/MlmcVec.v replays the run: raw rows, control rows (exact), with_cv rows, price(), ml, vl, ... (tolerance)
+            cvcases.append(V.cv_case(spec, obs, ncv, prices))
+            res.bump("cv_model_replays_by_number_of_controls", ncv)
+        elif skip:
+            res.bump("cv_model_replays_skipped (a level is ill-conditioned or N_l wrong)", 1)
         if not skip and abs(Fraction(obs["price"]) - total) > tol6 * max(sc, abs(total)):
             res.violation("price() with control variates is not the sum of per-level means of the adjusted samples",
                           D.replay_payload(spec, obs, reported=obs["price"], from_samples=float(total)))
+    if len(cvcases) < 0.5 * min(n_hist, 120):
+        res.broke("control-variate model coverage", f"only {len(cvcases)} of the first {min(n_hist, 120)} control-variate runs could be replayed by Model/MlmcVec.v")
+    _coq_group(res, "cv", V.CV_TY, V.CV_CHK, cvcases, 4 if res.tier == "quick" else 10,
+               "control-variate model (Model/MlmcVec.v: with_cv rows = Y - b (X - price), statistics from the adjusted rows) and implementation differ on {n} runs")
     res.bump("cv_levels_total", n_levels)
     res.bump("cv_levels_results_checked", n_checked)
     if n_levels and (n_skip_ill > 0.25 * n_levels or n_checked < 0.4 * n_levels):
